@@ -598,3 +598,30 @@ func implicitFieldOf(st *types.Struct, n *types.Named) bool {
 	}
 	return false
 }
+
+// ownerExpr: e itself when it has type want, otherwise the nearest enclosing operand of e's selector chain that has it
+// (x.inner.f with want = type of x gives x); e when there is none.
+func ownerExpr(info *types.Info, want *types.Named, e ast.Expr) ast.Expr {
+	if want == nil || e == nil {
+		return e
+	}
+	for cur := e; ; {
+		if n := namedOf(info.TypeOf(cur)); n != nil && n.Origin() == want.Origin() {
+			return cur
+		}
+		switch x := unparen(cur).(type) {
+		case *ast.SelectorExpr:
+			cur = x.X
+			continue
+		case *ast.UnaryExpr:
+			if x.Op == token.AND {
+				cur = x.X
+				continue
+			}
+		case *ast.StarExpr:
+			cur = x.X
+			continue
+		}
+		return e
+	}
+}
